@@ -444,9 +444,17 @@ impl<Upstream> ValidationContext<Upstream> {
         let qtype = question.qtype();
 
         // A secure answer may actually be insecure if there is an insecure
-        // CNAME or DNAME in the chain. Start by assume that secure is secure
-        // and downgrade if required.
-        let maybe_secure = ValidationState::Secure;
+        // CNAME or DNAME in the chain. The same is true if the answer
+        // section contains any other RRset that is not secure: according to
+        // RFC 4035, Section 3.2.3, the AD bit can only be set if all RRsets
+        // in the answer section are authentic. Start with the combined
+        // state of all groups in the answer section and downgrade if
+        // required.
+        let maybe_secure = answers
+            .iter()
+            .fold(ValidationState::Secure, |acc, g| {
+                map_maybe_secure(g.state(), acc)
+            });
 
         let (sname, state, ede) = do_cname_dname(
             qname,
